@@ -37,6 +37,10 @@ Dem(v)   == IF v.dem # "" THEN v.dem ELSE Demand(ModelSt(v.pre), v.m)
 Stage(v) == IF v.stage # "" THEN v.stage ELSE IF HandlerStage(ModelSt(v.pre), v.m) THEN "handler" ELSE "pre"
 
 Codes(v)   == {f.code : f \in {g \in S(v.fr) : g.k # "raw"}}
+\* the codes that answer THIS request: those of the frames echoing its id when there are any (a frame without id may be the late
+\* answer to an earlier id-less request), otherwise all
+OwnCodes(v) == LET own == {f.code : f \in {g \in S(v.fr) : g.k # "raw" /\ g.id = v.rid}} IN
+               IF v.rid # "" /\ own # {} THEN own ELSE Codes(v)
 Ids(v)     == {f.id : f \in {g \in S(v.fr) : g.k # "raw"}}
 Dead(v)    == ~v.alive \/ (v.panic /\ v.confirmed # "survived")
 
@@ -49,7 +53,7 @@ CheckInput(v) ==
           \* is malformed / unauthorised / out of sequence / ill-addressed, with or without an id
           (IF v.fr = <<>> /\ (Dem(v) = "err" \/ (Dem(v) = "reply" /\ v.rid # "")) THEN {"RequestAnswered"} ELSE {})
           \* malformed / unauthorised / out-of-sequence / ill-addressed requests get an error code (3xx where the model says so)
-          \cup (IF Dem(v) = "err" /\ v.fr # <<>> /\ (\E c \in Codes(v) : c < 300) THEN {"BadRequestGetsErrorCode"} ELSE {})
+          \cup (IF Dem(v) = "err" /\ v.fr # <<>> /\ (\E c \in OwnCodes(v) : c < 300) THEN {"BadRequestGetsErrorCode"} ELSE {})
           \* replies echo the request id: no reply carries a foreign id, and a handler-stage reply carries the request's
           \cup (IF \E id \in Ids(v) : id \notin {"", v.rid} THEN {"ReplyEchoesId"} ELSE {})
           \cup (IF Stage(v) = "handler" /\ v.rid # "" /\ Codes(v) # {} /\ v.rid \notin Ids(v) THEN {"ReplyEchoesId"} ELSE {}))
